@@ -83,7 +83,11 @@ Retains(post, pre) == IBO(pre) \subseteq IBO(post)
 (* identities of every mutable object reachable from a projected genome *)
 \* lpc: the backing array of a link's parameter vector (derived from its trait), where the projection records it
 LinkParamCell(x) == IF "lpc" \in DOMAIN x THEN x.lpc ELSE 0
+\* the links of the modules (inputs and outputs of every control node), where the projection records their identities
+ModEnds(g) == UNION { { g.mods[i].ins[k] : k \in DOMAIN g.mods[i].ins } \cup { g.mods[i].outs[k] : k \in DOMAIN g.mods[i].outs } : i \in DOMAIN g.mods }
+EndField(e, f) == IF f \in DOMAIN e THEN e[f] ELSE 0
 Cells(g) == ({ g.traits[i].c : i \in DOMAIN g.traits } \cup { g.traits[i].pc : i \in DOMAIN g.traits }
+            \cup { EndField(e, "c") : e \in ModEnds(g) }
             \cup { g.nodes[i].c : i \in DOMAIN g.nodes }
             \cup { g.genes[i].c : i \in DOMAIN g.genes } \cup { g.genes[i].lc : i \in DOMAIN g.genes }
             \cup { LinkParamCell(g.genes[i]) : i \in DOMAIN g.genes }
@@ -92,12 +96,16 @@ Cells(g) == ({ g.traits[i].c : i \in DOMAIN g.traits } \cup { g.traits[i].pc : i
 (* identities a projected genome REFERS to: gene endpoints and traits, node traits, the id index *)
 Refs(g) == ({ g.genes[i].sc : i \in DOMAIN g.genes } \cup { g.genes[i].dc : i \in DOMAIN g.genes }
             \cup { g.genes[i].tc : i \in DOMAIN g.genes } \cup { g.nodes[i].tc : i \in DOMAIN g.nodes }
-            \cup { g.nodes[i].lk : i \in DOMAIN g.nodes }) \ {0}
+            \cup { g.nodes[i].lk : i \in DOMAIN g.nodes }
+            \cup { EndField(e, "ec") : e \in ModEnds(g) } \cup { EndField(e, "tc") : e \in ModEnds(g) }
+            \cup { EndField(g.mods[i], "ntc") : i \in DOMAIN g.mods }) \ {0}
 
 (* ---------------------------------------------------------------- Part 2 *)
 (* C06: equal in every genetic respect apart from the id, sharing no mutable state *)
+\* the genetic content of a module link (without the identities)
+EndsG(es) == [k \in DOMAIN es |-> [f \in DOMAIN es[k] \ {"c", "ec", "tc"} |-> es[k][f]]]
 ModsG(g) == [i \in DOMAIN g.mods |-> [inn |-> g.mods[i].inn, mut |-> g.mods[i].mut, en |-> g.mods[i].en, nid |-> g.mods[i].nid,
-                                       act |-> g.mods[i].act, tr |-> g.mods[i].tr, ins |-> g.mods[i].ins, outs |-> g.mods[i].outs]]
+                                       act |-> g.mods[i].act, tr |-> g.mods[i].tr, ins |-> EndsG(g.mods[i].ins), outs |-> EndsG(g.mods[i].outs)]]
 GenEq(a, b) == Abs(a) = Abs(b)
 GenEqM(a, b) == Abs(a) = Abs(b) /\ ModsG(a) = ModsG(b)
 IsDuplicate(c, g) == GenEqM(c, g) /\ Cells(c) \cap Cells(g) = {} /\ Refs(c) \cap Cells(g) = {}
